@@ -14,7 +14,8 @@ use zmq_simrt as rt;
 struct St {
     /// (connection, client port, the library's side of it)
     conns: Vec<Option<(Arc<rt::net::Conn>, u16, usize)>>,
-    keep: Vec<RawPeer>,
+    keep: Vec<(usize, RawPeer)>,
+    after_departure: Option<(usize, Vec<usize>)>,
     viol: Vec<(&'static str, String)>,
     done: bool,
     /// (target peer, membership at invoke, membership at return)
@@ -41,7 +42,7 @@ fn rr_connect(ctx: &mut Ctx) {
     rr(ctx, true)
 }
 
-async fn serve_peer(mut peer: RawPeer, kind: Kind, s3: Rc<RefCell<St>>) {
+async fn serve_peer(i: usize, mut peer: RawPeer, kind: Kind, s3: Rc<RefCell<St>>) {
     if kind == Kind::Req {
         // answer every request so that the REQ socket can alternate
         let mut answered = 0usize;
@@ -58,7 +59,7 @@ async fn serve_peer(mut peer: RawPeer, kind: Kind, s3: Rc<RefCell<St>>) {
             }
         }
     }
-    s3.borrow_mut().keep.push(peer);
+    s3.borrow_mut().keep.push((i, peer));
     world::park().await;
 }
 
@@ -77,6 +78,8 @@ fn rr(ctx: &mut Ctx, dial: bool) {
     let mut at: Vec<usize> = (0..k).map(|_| if !dial || ctx.plan(2) == 0 { 0 } else { ctx.plan(nsends as u64) as usize }).collect();
     at.sort();
     let v6: Vec<bool> = (0..k).map(|_| dial && ctx.plan(4) == 0).collect();
+    // one peer leaves after the judged sends (PUSH/DEALER with >= 2 peers, one case in three)
+    let depart: Option<usize> = if kind != Kind::Req && k >= 2 && ctx.plan(3) == 0 { Some(ctx.plan(k as u64) as usize) } else { None };
     let st = Rc::new(RefCell::new(St::default()));
     st.borrow_mut().conns = vec![None; k];
     let s2 = st.clone();
@@ -102,7 +105,7 @@ fn rr(ctx: &mut Ctx, dial: bool) {
                         return;
                     }
                     let _l = l;
-                    serve_peer(peer, kind, s3).await;
+                    serve_peer(i, peer, kind, s3).await;
                 });
                 continue;
             }
@@ -116,7 +119,7 @@ fn rr(ctx: &mut Ctx, dial: bool) {
                 if peer.hello(stype, None).await.is_err() {
                     return;
                 }
-                serve_peer(peer, kind, s3).await;
+                serve_peer(i, peer, kind, s3).await;
             });
         }
         let mut members: BTreeSet<usize> = BTreeSet::new();
@@ -226,6 +229,57 @@ fn rr(ctx: &mut Ctx, dial: bool) {
             }
             let _ = after;
         }
+        // ---- departure: once the socket has observed that a peer is gone (a send failed on it),
+        // every further send succeeds and the rotation is strict again over the remaining peers
+        if let Some(d) = depart {
+            rt::task::idle().await;
+            if !dial {
+                drain_monitor(&mut mon, &mut members, &s2.borrow());
+            }
+            let gone = {
+                let mut st = s2.borrow_mut();
+                let pos = st.keep.iter().position(|(i, _)| *i == d);
+                pos.map(|pos| st.keep.remove(pos))
+            };
+            if let (Some((_, p)), true) = (gone, members.len() == k) {
+                p.close();
+                rt::task::idle().await;
+                let mut observed = false;
+                for t in 0..2 * k {
+                    if sock.send(to_zmq(&tagged(1, t as u32, &[5]))).await.is_err() {
+                        observed = true;
+                        break;
+                    }
+                }
+                if observed {
+                    rt::count("probe_departure_observed_by_failed_send");
+                    let conns: Vec<(Arc<rt::net::Conn>, usize)> = s2.borrow().conns.iter().map(|c| c.as_ref().map(|c| (c.0.clone(), c.2)).unwrap()).collect();
+                    let mut placed: Vec<usize> = Vec::new();
+                    for t in 0..2 * (k - 1) + 1 {
+                        let before: Vec<usize> = conns.iter().map(|(c, side)| c.tap_len_from(*side)).collect();
+                        match sock.send(to_zmq(&tagged(2, t as u32, &[5]))).await {
+                            Ok(()) => {
+                                let gained: Vec<usize> = (0..k).filter(|j| conns[*j].0.tap_len_from(conns[*j].1) != before[*j]).collect();
+                                if gained.len() != 1 {
+                                    s2.borrow_mut().viol.push(("not_exactly_one_peer", format!("{} after peer {d} left: send #{t} returned Ok but {} connections gained bytes ({:?})", kind.name(), gained.len(), gained)));
+                                    return world::park().await;
+                                }
+                                if gained[0] == d {
+                                    s2.borrow_mut().viol.push(("sent_to_departed_peer", format!("{} send #{t} was written to peer {d} after the socket had observed its departure", kind.name())));
+                                    return world::park().await;
+                                }
+                                placed.push(gained[0]);
+                            }
+                            Err(e) => {
+                                s2.borrow_mut().viol.push(("send_fails_after_departure_observed", format!("{}: peer {d} left and the socket has seen a send fail on it; send #{t} after that failed again ({e}) although {} peers are connected", kind.name(), k - 1)));
+                                return world::park().await;
+                            }
+                        }
+                    }
+                    s2.borrow_mut().after_departure = Some((d, placed));
+                }
+            }
+        }
         s2.borrow_mut().done = true;
         world::park().await;
         drop(sock);
@@ -264,6 +318,23 @@ fn rr(ctx: &mut Ctx, dial: bool) {
         }
         i = j.max(i + 1);
     }
+    if let Some((d, placed)) = &s.after_departure {
+        let n = k - 1;
+        if n >= 2 {
+            for w in 0..=(placed.len().saturating_sub(n)) {
+                if w + n > placed.len() {
+                    break;
+                }
+                let set: BTreeSet<usize> = placed[w..w + n].iter().copied().collect();
+                if set.len() != n {
+                    ctx.violation("rotation_broken_after_departure", format!("{}: peer {d} left (observed by a failed send); with the remaining {n} peers, {n} consecutive sends went to {:?}", kind.name(), &placed[w..w + n]));
+                    break;
+                }
+            }
+        }
+        ctx.probe("rotation_after_departure_judged");
+        ctx.nontrivial();
+    }
     ctx.probe_n("rotation_windows", windows);
     ctx.probe_n("no_peer_send_checked", s.empty_checked as u64);
     ctx.probe_n("sends_placed", s.sends.len() as u64);
@@ -282,7 +353,7 @@ pub fn def() -> PropDef {
         id: "C10",
         level: "exploration",
         rule: "case index walks socket kind (PUSH/DEALER/REQ) x peer count 0..4; peers join after drawn delays (some before the first send, some between sends) - in rr_world by connecting to the bound socket (membership from Accepted monitor events), in rr_connect by being dialled with connect() at drawn positions between the sends, some listeners appearing only after a drawn virtual delay of up to 9 s so that connect() goes through the library's refused / back-off / retry loop on the simulated clock (membership = completed connect calls); 1..14 sends with drawn shapes; connection taps are snapshotted at the instant send returns (same task step); membership is taken from Accepted monitor events; rotation is asserted only over maximal runs of sends with unchanged membership; non-trivial = a rotation window of >= 2 peers was judged or a no-peer send was judged; distinct = distinct (plan, schedule, transport) hashes",
-        assumptions: &["peers do not depart in this scenario (departure + rejoin is judged under C16)", "REQ partners always reply, so that REQ can alternate"],
+        assumptions: &["during the judged sends nobody departs; in one case in three one peer then closes its connection, and once a send has failed on it (the socket's observation of the departure) every further send must succeed on exactly one remaining peer and rotate strictly over them (rejoin is judged under C16)", "REQ partners always reply, so that REQ can alternate"],
         strata: vec![
             Stratum { name: "rr_world", quick: 120_000, thorough: (2_000_000) * 5, exhaustive: (false, false), run: rr_world, what: "send placement at return time, strict rotation over stable membership, empty rotation" },
             Stratum { name: "rr_connect", quick: 60_000, thorough: 5_000_000, exhaustive: (false, false), run: rr_connect, what: "the socket dials 0..4 harness listeners between sends; some listeners appear late, so connect() retries on the virtual clock" },
